@@ -22,7 +22,7 @@ def prop_of(d):
     notes = os.path.join(d, "notes.md")
     if not os.path.exists(notes):
         return None
-    head = open(notes).read(400)
+    head = open(notes).read(3000)
     m = re.search(r"\bC(\d\d)\b", head)
     return f"C{m.group(1)}" if m else None
 
